@@ -121,6 +121,7 @@ def gen_case(rng, i):
         q['where'] = g.gen_where()
     if rng.random() < 0.15 and not q['distinct']:
         q['order'] = g.gen_order()
+    q['bare'] = rng.random() < 0.6      # items like `a2 or 'x' as who`, `x if c else y AS v` without enclosing parentheses
     return common.case_json(q, T, extra={'init': True})
 
 
